@@ -124,7 +124,7 @@ StepRec(in, r, o, sg, lst) ==
                                     held |-> HeldNext(cfg, st, pos, in,
                                                       r.br \notin {"AxisUndefined", "AxisDuplicate", "AxisLearningGate"})])
                ELSE pos,
-    tx0 |-> lastTx, hap0 |-> hap ]
+    pos0 |-> pos, tx0 |-> lastTx, hap0 |-> hap ]
 
 IsKeyIn(X)     == X.in.ev \in {"press", "release"}
 IsPressIn(X)   == X.in.ev = "press"
@@ -365,12 +365,24 @@ C08_Pinned(X) ==
 
 PanicStep(X) == IsPressIn(X) /\ ~Swallowed(X) /\ ActionIn(X) /\ ActionOf(X) = "panic" /\ X.br = "Panic"
 
-C13_PanicOut(X) ==
-  PanicStep(X) =>
+PanicMsgs(X) ==
     /\ CCMsg(X.pre.chan, AllNotesOff, 0) \in {X.o[i] : i \in 1..Len(X.o)}
     /\ {<<X.pre.chan, n>> : n \in 0..127} \subseteq {PairOf(X.o[i]) : i \in NoteOffs(X.o)}
     /\ NoteOns(X.o) = {}
     /\ \A i \in 1..Len(X.o) : IsOff(X.o[i]) \/ X.o[i] = CCMsg(X.pre.chan, AllNotesOff, 0)
+
+C13_PanicOut(X) == PanicStep(X) => PanicMsgs(X)
+
+\* panic triggered by an axis that emulates actions: every time the axis ENTERS the side that carries panic -
+\* its previous report (whatever mapping was in force then) lay elsewhere under the present definition - the
+\* panic messages go out.  Further reports within the side are not triggers (the code fires again; not demanded).
+C13_PanicAxis(X) ==
+  (IsAxisIn(X) /\ AxisIsType(X.c, X.pre, X.in.a, "action") /\ X.br \in {"AxisActionNeg", "AxisActionPos"}) =>
+    LET ad == AxisDef(X.c, X.pre, X.in.a)
+        d == DirOf(WorkPos(X.c, X.pre, X.in.a, X.in.raw))
+        prevd == IF X.in.a \in DOMAIN X.pos0 THEN DirOf(WorkPos(X.c, X.pre, X.in.a, X.pos0[X.in.a].raw)) ELSE "none"
+        act == IF d = "pos" THEN ad.act ELSE ad.actNeg
+    IN (act = "panic" /\ prevd # d) => PanicMsgs(X)
 
 \* panic does not move the playing state (so later presses behave as if it had not happened:
 \* all later steps are judged against the abstract state, which panic leaves alone)
@@ -410,11 +422,12 @@ PredNames == {
   "C05_WellFormed", "C06_Controller", "C06_PitchBend", "C06_Monotone",
   "C07_Exclusive", "C07_SideMatches", "C07_LearningGate",
   "C08_On", "C08_OnlyConfigured", "C08_Off", "C08_Exclusive", "C08_Pinned",
-  "C13_PanicOut", "C13_PanicNeutral", "C13_AsIfNoPanic", "C14_Fires", "C14_NeverEarly" }
+  "C13_PanicOut", "C13_PanicAxis", "C13_PanicNeutral", "C13_AsIfNoPanic", "C14_Fires", "C14_NeverEarly" }
 
 Pred(n, X) ==
   CASE n = "C01_Quiescent" -> C01_Quiescent(X)
     [] n = "C01_DisconnectSilent" -> C01_DisconnectSilent(X)
+    [] n = "C13_PanicAxis" -> C13_PanicAxis(X)
     [] n = "C02_ReleasePinned" -> C02_ReleasePinned(X)
     [] n = "C02_StateActionsSilent" -> C02_StateActionsSilent(X)
     [] n = "C02_ReleaseEmits" -> C02_ReleaseEmits(X)
